@@ -187,6 +187,12 @@ def roundtrip_job(job):
             else:
                 rec.update({"knots": fr[: len(knots)], "x": fr[len(knots):], "cyclic": cyclic, "obs": obs.tolist(), "df": df_, "ncols": int(train.shape[1]),
                             "call": f"{kind}(x, df={df_})"})
+            # the same real vector held as int64 (x is integer-valued here), with bounds that are not integers: same basis
+            lo_i, hi_i = min(x) - 0.25, max(x) + 0.5
+            as_float = mat_of(fn(numpy.array(x + [hi_i + 1.0, hi_i + 36.0]), df=df_, lower_bound=lo_i, upper_bound=hi_i, _state={}))
+            as_int = mat_of(fn(numpy.array([int(v) for v in x] + [int(hi_i + 1.0), int(hi_i + 36.0)], dtype="int64"), df=df_, lower_bound=lo_i, upper_bound=hi_i, _state={}))
+            rec["int_ok"] = bool(numpy.allclose(as_float[: len(x)], as_int[: len(x)], atol=1e-12)) and (
+                bool(numpy.allclose(as_float, as_int, atol=1e-12)) or (hi_i + 1.0) != int(hi_i + 1.0))
             # centering constraint: harness predicates
             stc = {}
             ext = rng.choice(["extend", "clip", "clip", "zero"])
@@ -198,9 +204,13 @@ def roundtrip_job(job):
                 bounds, ext = {}, "extend"
             cen = mat_of(fn(numpy.array(x), df=df_, constraints="center", extrapolation=ext, _state=stc, **bounds))
             rec["center_call"] = f"{kind}(x, df={df_}, constraints='center', extrapolation={ext!r}, bounds={bounds})"
+            # a missing value in the training vector is a missing row, not a missing basis: the other rows are what they are without it
+            cen_nan = mat_of(fn(numpy.array(x + [float("nan")]), df=df_, constraints="center", extrapolation=ext, _state={}, **bounds))
+            rec["center_nan_ok"] = bool(numpy.isnan(cen_nan[-1]).all()) and cen_nan.shape == (len(x) + 1, cen.shape[1]) and bool(numpy.allclose(cen_nan[:-1], cen, atol=1e-9))
             if ext != "extend":
                 # zero column means on the training data is the whole claim here (the free basis on clipped data is not re-derived)
-                rec["center_ok"] = bool(numpy.allclose(cen.mean(axis=0), 0, atol=1e-9)) if ext == "clip" else True
+                # (rows zeroed by the 'zero' mode are rows of zeros of the training matrix and count in its column means)
+                rec["center_ok"] = bool(numpy.allclose(cen.mean(axis=0), 0, atol=1e-9))
                 return rec
             free_knots = numpy.array(stc["knots"])
             from formulaic.transforms.cubic_spline import _get_free_cubic_spline_matrix
@@ -253,6 +263,10 @@ def run(ctx: Ctx) -> None:
         ctx.evaluations += 1
         if x.get("center_ok") is False:
             ctx.violation({"transform": x["kind"], "call": x.get("center_call")}, {"why": "centering constraint (zero column means / rank within the span of the free basis)", "call": x.get("center_call")}, kind="roundtrip")
+        if x.get("center_nan_ok") is False:
+            ctx.violation({"transform": x["kind"], "call": x.get("center_call")}, {"why": "a missing value in the training vector changes the centred rows of the other values", "call": x.get("center_call")}, kind="roundtrip")
+        if x.get("int_ok") is False:
+            ctx.violation({"transform": x["kind"], "call": x.get("call")}, {"why": "the basis of an integer-valued vector depends on whether it is held as int64 or float64", "call": x.get("call")}, kind="roundtrip")
     ctx.notes["centering_predicates_evaluated"] = sum(1 for x in recs if "center_ok" in x)
     recs = [x for x in recs if not x.get("skip")]
     good = [x for x in recs if "exc" not in x]
@@ -264,7 +278,7 @@ def run(ctx: Ctx) -> None:
     skipped = 0
     for b in range(0, len(good), 40):
         batch = good[b : b + 40]
-        tf.write_text(json.dumps([{k: v for k, v in x.items() if k not in ("obs", "call", "center_ok", "center_call", "nan_ok", "df", "ncols")} for x in batch]))
+        tf.write_text(json.dumps([{k: v for k, v in x.items() if k not in ("obs", "call", "center_ok", "center_call", "nan_ok", "df", "ncols", "int_ok", "center_nan_ok")} for x in batch]))
         of.unlink(missing_ok=True)
         try:
             t = run_tlc("Oracle_Spline", "SPECIFICATION Spec\nINVARIANT Emit\n", tag="c12o", env={"TRACE_FILE": str(tf), "OUT_FILE": str(of)}, timeout=3000, workers=4)
@@ -296,6 +310,10 @@ def run(ctx: Ctx) -> None:
             ctx.violation(case, {"why": "values on the recorded knot vector", "knots": x.get("inner", x.get("knots")), "observed": obs.tolist()[:3], "expected": e.tolist()[:3]}, kind="roundtrip")
         elif x.get("center_ok") is False:
             ctx.violation(case, {"why": "centering constraint (zero column means / rank within the span of the free basis)", "call": x.get("center_call")}, kind="roundtrip")
+        elif x.get("center_nan_ok") is False:
+            ctx.violation(case, {"why": "a missing value in the training vector changes the centred rows of the other values", "call": x.get("center_call")}, kind="roundtrip")
+        elif x.get("int_ok") is False:
+            ctx.violation(case, {"why": "the basis of an integer-valued vector depends on whether it is held as int64 or float64"}, kind="roundtrip")
         elif x.get("nan_ok") is False:
             ctx.violation(case, {"why": "a missing value in the training vector reached the recorded knots or the other rows"}, kind="roundtrip")
         else:
